@@ -29,6 +29,11 @@ func (node *tagWidthratioNode) Execute(ctx *ExecutionContext, writer TemplateWri
 	}
 
 	value := int(math.Floor(current.Float()/max.Float()*width.Float() + 0.5))
+	if max.Float() == 0 {
+		// nothing to relate the value to (the conversion of an infinite ratio
+		// to an integer is not defined); like Django: 0
+		value = 0
+	}
 
 	if node.ctxName == "" {
 		writer.WriteString(fmt.Sprintf("%d", value))
